@@ -26,6 +26,7 @@ prop(
     level_note="trusts rapid's generators/shrinker, protobuf reflection and the harness's reference model (harness/props/c09_test.go)",
     jobs=[
         {"test": "TestC09", "checks": 4000, "timeout": 300, "thorough": {"checks": 60000, "shards": 16, "timeout": 1500}},
+        {"test": "TestC09Exhaustive", "rapid": False, "exhaustive": True, "replay_test": "TestC09Replay", "timeout": 300},
     ],
     floor={"quick": 200, "thorough": 5000},
 )
@@ -44,7 +45,10 @@ prop(
                 "stated lower and upper bounds, the laws (idempotence, commutativity on sets, absorption, empty annihilator) and the "
                 "second-operand-wins attribute rule are checked field by field by reflection."),
     level_note="trusts rapid, protobuf reflection and the harness's set model (harness/props/c10_test.go)",
-    jobs=[{"test": "TestC10", "checks": 4000, "timeout": 300, "thorough": {"checks": 60000, "shards": 16, "timeout": 1500}}],
+    jobs=[
+        {"test": "TestC10", "checks": 4000, "timeout": 300, "thorough": {"checks": 60000, "shards": 16, "timeout": 1500}},
+        {"test": "TestC10Exhaustive", "rapid": False, "exhaustive": True, "replay_test": "TestC09Replay", "timeout": 300},
+    ],
     floor={"quick": 100, "thorough": 3000},
 )
 
